@@ -40,8 +40,9 @@ def build(layout, pre=None):
     m = PdoMap(pdo_node, None, None)
     if pre is not None:
         # an earlier mapping of the same objects (other lengths), un-mapped again with clear()
-        for i, (dt, ln) in enumerate(pre):
-            m.add_variable(0x2000 + i, 0, ln)
+        # (entries are [object number, length]; an object may be mapped more than once)
+        for k, ln in pre:
+            m.add_variable(0x2000 + k, 0, ln)
         m.clear()
     for i, (dt, ln) in enumerate(layout):
         # an object mapped with its own length is added without an explicit length
@@ -227,7 +228,18 @@ def make_case(rng, layout, focus, nvals, all_values=False):
     c = dict(kind="pdo", layout=layout, frame=frame, ops=ops)
     if rng.random() < 0.35:
         # the same objects were mapped before with other lengths (sub-byte for the 8-bit types) and un-mapped again
-        c["pre"] = [[dt, (rng.randrange(1, max(2, min(8, ln + 1))) if dt in (U8, I8) else ln)] for dt, ln in layout]
+        # (possibly a LONGER mapping than the final one: the frame must shrink again)
+        pre = [[i, (rng.randrange(1, 9) if dt in (U8, I8) else type_bits(dt) if dt != BOOLEAN else ln)]
+               for i, (dt, ln) in enumerate(layout)]
+        total = sum(ln for _, ln in pre)
+        while rng.random() < 0.5:
+            i = rng.randrange(len(layout))
+            ln = type_bits(layout[i][0]) if layout[i][0] != BOOLEAN else 1
+            if total + ln > 64:
+                break
+            pre.append([i, ln]); total += ln
+        if total <= 64:
+            c["pre"] = pre
     return c
 
 
